@@ -844,6 +844,7 @@ impl DPEventLoop {
   }
 
   fn add_local_reader(&mut self, reader_ing: ReaderIngredients) {
+    let topic_name = reader_ing.topic_name.clone();
     let timer = new_simple_timer();
     self
       .poll
@@ -876,6 +877,14 @@ impl DPEventLoop {
     new_reader.set_requested_deadline_check_timer();
     trace!("Add reader: {:?}", new_reader);
     self.message_receiver.add_reader(new_reader);
+
+    // Discovery may have learned about matching remote Writers before this Reader
+    // existed. No further WriterUpdated notification is coming for those, so match
+    // against what DiscoveryDB knows now.
+    let known_writers = discovery_db_read(&self.discovery_db).writers_on_topic(&topic_name);
+    for remote_writer in &known_writers {
+      self.remote_writer_discovered(remote_writer);
+    }
   }
 
   fn remove_local_reader(&mut self, reader_guid: GUID) {
@@ -907,6 +916,7 @@ impl DPEventLoop {
   }
 
   fn add_local_writer(&mut self, writer_ing: WriterIngredients) {
+    let topic_name = writer_ing.topic_name.clone();
     let timer = new_simple_timer();
     self
       .poll
@@ -936,6 +946,14 @@ impl DPEventLoop {
       .expect("Writer command channel registration failed!!");
 
     self.writers.insert(new_writer.guid().entity_id, new_writer);
+
+    // Discovery may have learned about matching remote Readers before this Writer
+    // existed. No further ReaderUpdated notification is coming for those, so match
+    // against what DiscoveryDB knows now.
+    let known_readers = discovery_db_read(&self.discovery_db).readers_on_topic(&topic_name);
+    for remote_reader in &known_readers {
+      self.remote_reader_discovered(remote_reader);
+    }
   }
 
   fn remove_local_writer(&mut self, writer_guid: &GUID) {
